@@ -65,10 +65,17 @@ class Facts:
             yield f
 
 
-def driver_source(variant, scalar, kind, entries=None, extra_includes="", scalar_decl=None, access="derived"):
-    es = [e for e in (entries or ENTRIES) if W.cell_applicable(e, variant, kind, access)]
-    src, _ = W.batch_source(variant, scalar, kind, access, es, extra_includes, scalar_decl)
-    return src
+def driver_source(variant, scalar, kind, entries=None, extra_includes="", scalar_decl=None, access="both"):
+    """All-API driver: every applicable witness, operands typed as the class itself *and* as
+    LieGroupBase& / TangentBase& (so that the generic layer's own members are instantiated too)."""
+    out = ""
+    for acc in (("derived", "base") if access == "both" else (access,)):
+        es = [e for e in (entries or ENTRIES) if W.cell_applicable(e, variant, kind, acc)]
+        src, _ = W.batch_source(variant, scalar, kind, acc, es, extra_includes, scalar_decl)
+        if out:
+            src = src[src.index("namespace w_"):]
+        out += src
+    return out
 
 
 def get(variant, scalar="double", kind="own", mode="funcs", ndebug=False, entries=None,
